@@ -176,15 +176,21 @@ def parse_output(out):
         r["verification_s"] = float(m.group(1))
     r["stubs"] = re.findall(r"- Stub: (.*)", out)
     r["status_error"] = "Status: ERROR" in out or "CBMC failed" in out or "out of memory" in out.lower()
-    m = re.search(r"Concrete playback unit test for `.*?`:\n```\n(.*?)```", out, re.S)
-    if m:
-        r["playback_src"] = m.group(1)
+    # Kani prints one concrete playback test per failed check and per satisfied cover, in no documented
+    # order and without saying which is which: all of them are kept, the replay tries each
+    allv = []
+    for m in re.finditer(r"Concrete playback unit test for `.*?`:\n```\n(.*?)```", out, re.S):
         vals = []
         for vm in re.finditer(r"^\s*vec!\[([0-9, ]*)\],?\s*$", m.group(1), re.M):
             s = vm.group(1).strip()
             vals.append([int(x) for x in s.split(",") if x.strip()] if s else [])
-        # first match is the outer `vec![` only if it is on one line; it is not, so all are inner
-        r["playback_vals"] = vals
+        if "playback_src" not in r:
+            r["playback_src"] = m.group(1)
+        if vals not in allv:
+            allv.append(vals)
+    if allv:
+        r["playback_vals"] = allv[0]
+        r["playback_all"] = allv
     return r
 
 
